@@ -195,6 +195,34 @@ theorem dose_helpers_documented :
     Gen.C16.mdocFeatureBody = ["return self.imgs[feature]"] := by
   refine ⟨by decide, by rfl, by decide, by rfl, by decide, by rfl, by decide, by rfl⟩
 
+/-- Warp `.xml` doses (`total_dose_load`'s `.xml` branch calls `get_data_from_warp_xml(input_dose, "Dose", node_level=1)`): the text of
+the first `<Dose>` child of the root, split into lines, every non-blank line through `float` IN FILE ORDER (no sorting, no
+de-duplication) — so the i-th line is the dose of the i-th image, the pairing `doseFilter` models.  (`node_level=2`, the `<Node Value=…>`
+children, is not on the dose path.) -/
+theorem warp_xml_documented :
+    Gen.C16.warpXmlSig = "get_data_from_warp_xml(xml_file_path,node_name,node_level=1)" ∧
+    Gen.C16.warpXmlBody =
+      ["if node_levelnotin[1,2]",
+       ".raise ValueError",
+       "try",
+       ".tree=ET.parse(xml_file_path)",
+       ".root=tree.getroot()",
+       ".elements=root.findall(node_name)",
+       ".if elements",
+       "..if node_level==2",
+       "...node_elements=elements[0].findall('.//Node')",
+       "...data=[float(node.get('Value'))fornodeinnode_elements]",
+       "..else",
+       "...data_text=elements[0].text.strip()",
+       "...data=[float(value)forvalueindata_text.split('\\n')ifvalue.strip()]",
+       "..data=np.asarray(data)",
+       "..return data",
+       ".else",
+       "..return None",
+       "except Exception",
+       ".return None"] := by
+  refine ⟨by decide, by rfl⟩
+
 /-- the constants the model computes with, at the reals, are the statement's -/
 theorem constants_real : gg realOps = { a := 0.245, b := -1.665, c := 2.81 } := gg_real
 
